@@ -17,6 +17,7 @@ extern "C" void __gcov_dump(void);  // coverage build only (check/coverage.py)
 #include <sys/wait.h>
 #include <unistd.h>
 
+#include <algorithm>
 #include <cinttypes>
 #include <cmath>
 #include <cstdint>
@@ -356,6 +357,47 @@ run_case(const Case &c)
       for (auto &x : th) x.join();
       std::printf("ZPURE threads %d\n", shared == alone ? 1 : 0);
     }
+  }
+  if (c.ref && n > 20000000ULL) {
+    // sampled long double reference for very many bins: partial sums H(k) = sum_{i<=k} i^-alpha by exact summation of the
+    // first M terms plus Euler-Maclaurin from M to k (integral, end-point, first and third derivative terms)
+    const long double a = alpha;
+    const uint64_t M = 200000;
+    long double head = 0;
+    for (uint64_t i = 1; i <= M; ++i) head += 1.0L / powl(static_cast<long double>(i), a);
+    auto f = [&](long double x) { return powl(x, -a); };
+    auto f1 = [&](long double x) { return -a * powl(x, -a - 1); };
+    auto f3 = [&](long double x) { return -a * (a + 1) * (a + 2) * powl(x, -a - 3); };
+    auto H = [&](uint64_t k) -> long double {
+      if (k <= M) {
+        long double h = 0;
+        for (uint64_t i = 1; i <= k; ++i) h += 1.0L / powl(static_cast<long double>(i), a);
+        return h;
+      }
+      const long double x = static_cast<long double>(k), m = static_cast<long double>(M);
+      const long double e = 1.0L - a;
+      const long double integral = (fabsl(e) < 1e-12L) ? logl(x / m) : powl(m, e) * expm1l(e * logl(x / m)) / e;
+      return head + integral + (f(x) - f(m)) / 2 + (f1(x) - f1(m)) / 12 - (f3(x) - f3(m)) / 720;
+    };
+    const long double total = H(n);
+    std::vector<uint64_t> ks;
+    for (auto k : c.ks)
+      if (k >= 0 && static_cast<uint64_t>(k) < n) ks.push_back(static_cast<uint64_t>(k));
+    for (long double x = 100; x < static_cast<long double>(n); x *= 1.31L) ks.push_back(static_cast<uint64_t>(x));
+    std::sort(ks.begin(), ks.end());
+    double worst = 0;
+    uint64_t worst_k = 0;
+    for (auto k : ks) {
+      const long double ref = (k + 1 == n) ? 1.0L : H(k + 1) / total;
+      const double got = g.GetCDF(static_cast<Int>(k));
+      const double err = static_cast<double>(fabsl(static_cast<long double>(got) - ref));
+      if (!(err <= worst)) {
+        worst = err;
+        worst_k = k;
+      }
+    }
+    std::printf("ZREF %016" PRIx64 " %" PRIu64 " 1 -1 %016" PRIx64 "\n", bits(worst), worst_k,
+                bits(g.GetCDF(static_cast<Int>(n - 1))));
   }
   if (c.ref && n >= 1 && n <= 20000000ULL) {
     // long double reference: normalised partial sums of i^-alpha
